@@ -27,6 +27,11 @@ ASSUMPTIONS = ['always-on processes whose timestep answer depends only on their 
 
 
 def gen(r, tier, i):
+    if r.random() < 0.04:
+        # processes that enter the simulation at run time (generated, divided, moved compartments): C10's
+        # structural workload, judged here on "intervals contiguous, starting when the process entered" only
+        from vmon.checks import c10
+        return {'family': 'structural', 'c10': c10.gen(r, tier, i)}
     if r.random() < 0.7:
         grid, prec = 'dyadic', None
         t0 = r.choice([0, 0, 0.0, 1.5, 10.0, 100.25])
@@ -56,6 +61,10 @@ def exact(x, grid):
 
 
 def run(spec):
+    if spec.get('family') == 'structural':
+        from vmon.checks import c10
+        from vmon.util import harvest
+        return harvest(c10.run(spec['c10']), ('starts_at_creation', 'schedule_contiguous'), ['structural'])
     from vmon.sensors import Mon, drive
     V = Viol()
     m = Mon()
